@@ -27,6 +27,16 @@ def str_like(eng, v):
     return eng.type_ok(v, ExtT('str'))
 
 
+def _waits_each(c):
+    loops = [e for e in c.trace if e.kind == 'loop']
+    if len(loops) != 1:
+        return False
+    lp = loops[0]
+    return all(len([x for x in alt if x.kind == 'ext' and x.name == 'coordinator.result']) == 1
+               and [x for x in alt if x.kind == 'ext' and x.name == 'coordinator.result'][0].recv is item
+               for alt, item in zip(lp.alts, lp.items)) and len(lp.alts) >= 1
+
+
 def register(R):
     # tracked coordinators (elements of the controller's set) as seen by the manager
     def cancel_pre(eng, st, recv, args, kwargs):
@@ -63,7 +73,10 @@ def register(R):
     R.mark_inline(f'{CTRL}.tracked_transfer_coordinators')
     R.contract(
         f'{CTRL}.wait', props=['C07', 'C18'], self_type=ObjT(CTRL, shared=True), params={},
-        checks=lambda c: {'only_waits': B(all(e.name in ('coordinator.result',) for e in c.trace if e.kind == 'ext'))},
+        checks=lambda c: {'only_waits': B(all(e.name in ('coordinator.result',) for e in c.trace if e.kind == 'ext')),
+                          # barrier (C18): returns normally only after result() of EVERY tracked transfer returned (or raised a
+                          # plain failure, which is swallowed): one wait per tracked coordinator, on that coordinator
+                          'waits_for_every_tracked_transfer': B(_waits_each(c))},
         raises={'KeyboardInterrupt': lambda c: {'from_a_result_wait': B(any(
             e.extra.get('raised') is c.exc for e in _flat_ext(c.trace)))}},
         raise_when={'KeyboardInterrupt': lambda c: None},
